@@ -1,4 +1,4 @@
 From Coq Require Import Extraction ExtrOcamlBasic.
 From BV Require Import lib.ExtractBase lib.Ints gen.Params_gen model.CoinSel.
 Extraction "model.ml" extract_base group_of amt offered_groups valid_selection optimal_check none_check
-  select_coins_bnb result_of sort_nat pick_at waste_of bnb_waste.
+  select_coins_bnb coin_grinder result_of sort_nat pick_at waste_of bnb_waste.
